@@ -71,7 +71,7 @@ def s_net(draw, tier="quick", hyper=False, phys="none", uniform=False, min_n=2, 
     A new tensor is attached through exactly one label, so the incidence graph is a forest by construction.
     """
     n = draw(st.integers(min_n, max_n))
-    codes = [0] * 7 + ([1] * 3 if hyper else []) + ([2] if forest else [])
+    codes = [0] * 14 + ([1] * 6 if hyper else []) + ([2] if forest else [])
     attach = [[draw(st.sampled_from(codes)), draw(st.integers(0, 63)), draw(st.sampled_from([1, 2, 2, 3, 3]))]
               for _ in range(1, n)]
     if phys == "none":
@@ -377,7 +377,8 @@ def with_diagnosis(measure, o, flavour, net, sizes):
 
     When it fails, two re-runs decide whether the failure belongs to a narrow, already understood class:
       damped-local-stuck : damping>0 with local_convergence=True fails, the same run with local_convergence=False is exact
-      damped-half-cancel : damping==0.5 on real signed data with a size-1 bond gives nan/garbage, damping=0.45 is exact
+      damped-half-cancel : damping==0.5 on real signed data with a size-1 bond gives nan/garbage (one-norm flavours),
+                           damping=0.45 is exact
     anything else is re-raised unchanged."""
     try:
         return measure(o)
@@ -392,7 +393,7 @@ def with_diagnosis(measure, o, flavour, net, sizes):
                 pass
             else:
                 raise Violation("damped-local-stuck", flavour=flavour, clause=clause) from None
-        if (o["damping"] == 0.5 and net["kind"] == "signed" and flavour in ("hd1", "hv1")
+        if (o["damping"] == 0.5 and net["kind"] == "signed" and flavour in ("d1", "hd1", "hv1", "l1")
                 and any(sizes[l] == 1 for l in sizes if l.startswith("e"))):
             try:
                 measure(dict(o, damping=0.45))
@@ -787,7 +788,7 @@ def run_schedule(case):
                 pass
             else:
                 raise Violation("damped-local-stuck", flavour=flavour, clause=clause) from None
-        if (flavour in ("hd1", "hv1") and net["kind"] == "signed" and any(o["damping"] == 0.5 for o in (a, b))
+        if (flavour in ("d1", "hd1", "hv1", "l1") and net["kind"] == "signed" and any(o["damping"] == 0.5 for o in (a, b))
                 and any(sizes[l] == 1 for l in sizes if l.startswith("e"))):
             try:
                 measure({"a": dict(a, damping=min(a["damping"], 0.45)), "b": dict(b, damping=min(b["damping"], 0.45))})
@@ -1085,6 +1086,142 @@ def run_combine(case):
     return {"nt": len(xs) >= 2 and (kind != "pos" or any(p < 0 for p in ps)), "cls": cls, "err": err}
 
 
+# ---------------------------------------------------------------------------
+# 14. on a tree every normalisation helper / loop or cluster expansion entry point reduces to BP == exact
+# ---------------------------------------------------------------------------
+
+EXP_ROUTES = {
+    "d1": ["normalize_message_pairs", "normalize_tensors", "contract_gloop_expand", "contract_gloop_expand(int)",
+           "contract_loop_series_expansion", "contract_with_loops"],
+    "hd1": ["normalize_messages", "contract_gloop_expand"],
+    "l1": ["normalize_message_pairs"],
+    "d2": ["normalize_message_pairs", "normalize_tensors", "contract_gloop_expand", "contract_loop_series_expansion"],
+    "l2": ["normalize_message_pairs"],
+}
+
+
+@st.composite
+def s_expansions(draw, tier):
+    flavour = draw(st.sampled_from(["d1", "d1", "hd1", "l1", "d2", "d2", "l2"]))
+    two = flavour in ("d2", "l2")
+    net = draw(s_net(tier, hyper=False, groups=flavour in ("l1", "l2"),
+                     phys=draw(st.sampled_from(["opt", "all"])) if two else "none"))
+    o = draw(s_opts(flavour))
+    return {"flavour": flavour, "net": net, "opts": o, "route": draw(st.sampled_from(EXP_ROUTES[flavour])),
+            "strip": draw(st.booleans())}
+
+
+def run_expansions(case):
+    Q, BP = qt()
+    net, o, flavour, route = case["net"], case["opts"], case["flavour"], case["route"]
+    arrs, sizes, deg, group = build_arrays(net)
+    expo = float(net.get("exponent") or 0.0)
+    if flavour in ("d2", "l2"):
+        psi, outer, n2, mag = exact_psi(net, arrs, sizes)
+        ref = n2 * 10.0 ** (2 * expo)
+    else:
+        z, mag = exact_value(net, arrs)
+        ref = z * 10.0 ** expo
+    site_tags = sorted({f"G{g}" for g in group})
+    klass = {"d1": BP.D1BP, "hd1": BP.HD1BP, "l1": BP.L1BP, "d2": BP.D2BP, "l2": BP.L2BP}[flavour]
+    strip = case["strip"]
+
+    def measure(o):
+        tn = build_tn(net, arrs, group, Q)
+        ctor, runkw = run_kwargs(flavour, o, tn, net)
+        b = klass(tn, site_tags=site_tags, **ctor) if flavour in ("l1", "l2") else klass(tn, **ctor)
+        b.run(**runkw)
+        plain = complex(b.contract())
+        e0 = rel_scalar(plain, ref)
+        if not e0 <= TOL:
+            raise Violation("value", flavour=flavour, route="contract", err=e0, kind=net["kind"])
+        if route in ("normalize_message_pairs", "normalize_tensors", "normalize_messages"):
+            getattr(b, route)()
+            got = unstrip(b.contract(strip_exponent=strip), strip)
+        elif route == "contract_gloop_expand(int)":
+            got = unstrip(b.contract_gloop_expand(gloops=4, strip_exponent=strip), strip)
+        else:
+            got = unstrip(getattr(b, route)(strip_exponent=strip), strip)
+        err = rel_scalar(got, ref)
+        if not err <= TOL:
+            if rel_scalar(abs(got), abs(ref)) <= TOL:
+                # modulus right, sign / phase wrong
+                raise Violation("phase-lost", flavour=flavour, route=route, kind=net["kind"])
+            if flavour == "d2" and expo != 0 and rel_scalar(got, ref * 10.0 ** (-expo)) <= TOL:
+                # exactly one factor 10**exponent is missing
+                raise Violation("exponent-counted-once", flavour=flavour, route=route)
+            raise Violation("value-after", flavour=flavour, route=route, err=err, kind=net["kind"], exp_nonzero=expo != 0)
+        return max(err, e0)
+
+    err = with_diagnosis(measure, o, flavour, net, sizes)
+    cls = ["flavour=" + flavour, "route=" + route] + net_classes(net, deg) + opt_classes(o)
+    return {"nt": net["n"] >= 4, "cls": cls, "err": err}
+
+
+# ---------------------------------------------------------------------------
+# 15. decimation sampling: on a tree the reported probability omega is the exact probability of the sample
+# ---------------------------------------------------------------------------
+
+@st.composite
+def s_sample(draw, tier):
+    flavour = draw(st.sampled_from(["hd1", "hv1", "d2"]))
+    if flavour == "d2":
+        net = draw(s_net(tier, phys="all", max_n=6, kinds=KINDS_DENSE, exponents=(0.0,)))
+        net["phys"] = [2] * net["n"]  # sample_d2bp draws from [0, 1]
+    else:
+        net = draw(s_net(tier, hyper=True, uniform=flavour == "hv1", max_n=6, kinds=("pos", "pos", "pos0"),
+                         exponents=(0.0,)))
+    return {"flavour": flavour, "net": net, "seed": draw(st.integers(0, 2 ** 31 - 1)),
+            "damping": draw(st.sampled_from([0.0, 0.0, 0.3])), "local": draw(st.booleans()),
+            "subset": draw(st.booleans())}
+
+
+def run_sample(case):
+    Q, BP = qt()
+    net, flavour = case["net"], case["flavour"]
+    arrs, sizes, deg, group = build_arrays(net)
+    tn = build_tn(net, arrs, group, Q)
+    if flavour == "d2":
+        psi, outer, n2, mag = exact_psi(net, arrs, sizes)
+        config, tnc, omega = BP.sample_d2bp(tn, seed=case["seed"], tol=BP_TOL, max_iterations=MAXIT, damping=case["damping"],
+                                            local_convergence=case["local"])
+        if set(config) != set(outer):
+            raise Violation("sample-keys", flavour=flavour)
+        amp = psi[tuple(int(config[k]) for k in outer)]
+        p = float(abs(amp) ** 2 / n2)
+        w = complex(einsum_value(carrs(tn_tensors(tnc)), ()))
+        if not rel_scalar(w, amp) <= 1e-9:
+            raise Violation("sample-network", flavour=flavour)
+    else:
+        z, mag = exact_value(net, arrs)
+        labels = sorted(sizes)
+        out = labels[: max(1, len(labels) // 2)] if case["subset"] else None
+        fn = BP.sample_hd1bp if flavour == "hd1" else BP.sample_hv1bp
+        config, tnc, omega = fn(tn, output_inds=out, seed=case["seed"], tol=BP_TOL, max_iterations=MAXIT,
+                                damping=case["damping"])
+        if set(config) != set(out if out is not None else labels):
+            raise Violation("sample-keys", flavour=flavour)
+        # weight of the sampled configuration (the remaining labels summed) / Z
+        sel = []
+        for a, ii in carrs(arrs):
+            idx = tuple(int(config[l]) if l in config else slice(None) for l in ii)
+            sel.append((a[idx], tuple(l for l in ii if l not in config)))
+        wref = complex(einsum_value(sel, ()))
+        p = float(np.real(wref / z))
+        w = complex(einsum_value(carrs(tn_tensors(tnc)), ()))
+        if not rel_scalar(w, wref) <= 1e-9:
+            raise Violation("sample-network", flavour=flavour)
+    if not p > 0:
+        raise Violation("sampled-impossible-configuration", flavour=flavour, p=p)
+    err = abs(float(omega) - p) / max(p, float(omega))
+    if not err <= TOL:
+        raise Violation("omega", flavour=flavour, err=err, local=bool(case["local"]) if flavour == "d2" else None,
+                        damped=case["damping"] > 0)
+    cls = ["flavour=" + flavour] + net_classes(net, deg) + (["damped"] if case["damping"] else []) + \
+          (["local"] if case["local"] and flavour == "d2" else []) + (["subset"] if case["subset"] and flavour != "d2" else [])
+    return {"nt": net["n"] >= 3, "cls": cls, "err": err}
+
+
 SUBCHECKS = [
     SubCheck("d1bp.contract", run_contract1("d1"), s_contract1("d1"), examples=(120, 3000), shards=(1, 4),
              rule="contract_d1bp on trees/forests (rank-0 components incl.) x all options vs einsum; nt as RULE"),
@@ -1113,6 +1250,14 @@ SUBCHECKS = [
     SubCheck("compress.l2bp", run_compress_l2, s_compress_l2, examples=(50, 1200), shards=(1, 4),
              rule="compress_l2bp / L2BP.compress (lazy and eager, grouped regions) without truncation: denotation unchanged, "
                   "eager result has one tensor per region; nt as RULE"),
+    SubCheck("tree.expansions", run_expansions, s_expansions, examples=(100, 2500), shards=(1, 4),
+             rule="after convergence: normalize_message_pairs / normalize_tensors / normalize_messages then contract(), "
+                  "contract_gloop_expand, contract_loop_series_expansion, contract_with_loops of D1BP/HD1BP/L1BP/D2BP/L2BP on a tree "
+                  "(no loops) == exact value incl. the network exponent; nt: >=4 tensors"),
+    SubCheck("sample.omega", run_sample, s_sample, examples=(60, 1500), shards=(1, 4),
+             rule="sample_hd1bp / sample_hv1bp (positive data, hyper-edges, optional label subset) and sample_d2bp (dangling size 2) "
+                  "with explicit seed: returned omega == exact probability of the returned configuration, returned network == the "
+                  "selected slice; nt: >=3 tensors"),
     SubCheck("regions.counting", run_regions, s_regions, examples=(300, 6000), shards=(1, 4),
              rule="RegionGraph / gen_region_counts with autocomplete on random region sets: counting numbers of the regions "
                   "containing any node sum to 1; nt: >=3 distinct generating regions"),
